@@ -364,10 +364,173 @@ pub fn check_loop(case: &LoopCase, out: &LoopOutcome) -> Vec<Finding> {
             None => finding(&mut f, "C08", "panic-swallowed", format!("{}: a user closure panicked on thread {} but the run returned normally", case.describe(), case.panic.as_ref().unwrap().thread)),
         }
     } else if let Some(msg) = &out.panic {
-        if !msg.contains(divan_verif_rt::clock::HORIZON_PANIC) {
+        if !out.horizon {
             finding(&mut f, "C05", "unexpected-panic", format!("{}: run panicked: {msg}", case.describe()));
         }
     }
 
+    f
+}
+
+// ===========================================================================
+// C04 / C19: the loop as a state machine whose environment is the clock
+// ===========================================================================
+
+/// One round reconstructed from the log: per thread (start, end, calls).
+#[derive(Clone, Debug)]
+pub struct Round {
+    pub sections: Vec<(u32, u64, u64, usize)>,
+}
+
+impl Round {
+    pub fn latest_end(&self) -> u64 {
+        self.sections.iter().map(|s| s.2).max().unwrap()
+    }
+    pub fn slowest_ticks(&self) -> u64 {
+        self.sections.iter().map(|s| s.2 - s.1).max().unwrap()
+    }
+    pub fn size(&self) -> usize {
+        self.sections[0].3
+    }
+}
+
+pub fn rounds_of(events: &[Event]) -> (Option<u64>, Vec<Round>, Vec<ThreadTrace>) {
+    let traces = parse_threads(events);
+    let initial = traces.iter().find(|t| t.thread == 0).and_then(|t| t.aux_reads.first()).map(|r| r.1);
+    let active: Vec<&ThreadTrace> = traces.iter().filter(|t| !t.sections.is_empty()).collect();
+    let n = active.iter().map(|t| t.sections.len()).min().unwrap_or(0);
+    let rounds = (0..n)
+        .map(|k| Round { sections: active.iter().map(|t| (t.thread, t.sections[k].start.1, t.sections[k].end.1, t.sections[k].calls().len())).collect() })
+        .collect();
+    (initial, rounds, traces)
+}
+
+fn ns_to_ps(ns: Option<u64>, default: u128) -> u128 {
+    match ns {
+        None => default,
+        Some(u64::MAX) => {
+            let d = std::time::Duration::MAX;
+            d.as_nanos() * 1000
+        }
+        Some(n) => n as u128 * 1000,
+    }
+}
+
+/// Checks the number of rounds executed, the sizes of the rounds and what was
+/// kept, against the documented rule evaluated on the logged clock readings.
+pub fn check_time(case: &LoopCase, out: &LoopOutcome) -> Vec<Finding> {
+    let mut f = Vec::new();
+    if case.test || out.panic.is_some() {
+        return f;
+    }
+    let (initial, rounds, _traces) = rounds_of(&out.events);
+    let threads = case.effective_threads() as u64;
+    let ppt = 1_000_000_000_000u128 / case.freq as u128; // picoseconds per tick (freq divides 10^12 in all cases)
+    let min = ns_to_ps(case.min_time_ns, 0);
+    let max = ns_to_ps(case.max_time_ns, u128::MAX);
+    let skip = case.skip_ext.unwrap_or(false);
+    let n = case.sample_count.unwrap_or(100) as u64;
+    let p = case.precision_ps as u128;
+    let tuned = case.sample_size.is_none();
+    let prop: &'static str = if tuned { "C19" } else { "C04" };
+
+    // nothing runs at all
+    if max == 0 || case.sample_count == Some(0) || case.sample_size == Some(0) {
+        if !rounds.is_empty() {
+            finding(&mut f, "C04", "ran-with-zero-budget", format!("{}: {} rounds ran although max_time = 0 or no samples were requested", case.describe(), rounds.len()));
+        }
+        return f;
+    }
+    if rounds.is_empty() {
+        finding(&mut f, prop, "no-rounds", format!("{}: the loop did not run a single round", case.describe()));
+        return f;
+    }
+    if !skip && initial.is_none() {
+        finding(&mut f, "C04", "no-initial-start", format!("{}: no clock reading before the first sample although external time counts", case.describe()));
+        return f;
+    }
+
+    // replay the documented rule over the logged readings
+    let mut elapsed_skip: u128 = 0;
+    let mut threshold: Option<usize> = if tuned { None } else { Some(0) };
+    let mut expected_size: u64 = case.sample_size.map_or(1, |s| s as u64);
+    let last = rounds.len() - 1;
+    for (k, round) in rounds.iter().enumerate() {
+        // --- size of this round (C19)
+        for s in &round.sections {
+            if s.3 as u64 != expected_size {
+                finding(&mut f, if tuned { "C19" } else { "C03" }, "round-size", format!("{}: round {k} ran {} iterations on thread {}, expected {expected_size} (tuning doubles from 1 until the slowest sample exceeds 100x the precision)", case.describe(), s.3, s.0));
+                return f;
+            }
+        }
+        let slowest_ps = round.slowest_ticks() as u128 * ppt;
+        if tuned && threshold.is_none() {
+            if slowest_ps / p > 100 {
+                threshold = Some(k);
+            } else {
+                expected_size *= 2;
+            }
+        }
+        // --- elapsed time after this round (C04)
+        let elapsed = if skip {
+            elapsed_skip += slowest_ps.max(1000);
+            elapsed_skip
+        } else {
+            (round.latest_end().saturating_sub(initial.unwrap())) as u128 * ppt
+        };
+        let recorded = threshold.map_or(0, |h| (k - h + 1) as u64 * threads);
+        let more_samples = threshold.is_none() || recorded < n;
+        let stop = elapsed >= max || (!more_samples && elapsed >= min);
+        if k < last && stop {
+            let why = if elapsed >= max { "max_time was reached" } else { "enough samples were recorded and min_time had passed" };
+            finding(&mut f, if elapsed >= max && tuned && threshold.is_none() { "C19" } else { "C04" }, if elapsed >= max { "ran-past-max" } else { "ran-past-min" },
+                format!("{}: sampling continued after round {k} although {why} (elapsed {elapsed} ps, min {min}, max {max}, recorded {recorded}/{n}, skip_ext_time {skip}); {} rounds ran", case.describe(), rounds.len()));
+            return f;
+        }
+        if k == last && !stop {
+            finding(&mut f, "C04", if more_samples { "stopped-before-count" } else { "stopped-before-min" },
+                format!("{}: sampling stopped after round {k} although the rule says continue (elapsed {elapsed} ps, min {min}, max {max}, recorded {recorded}/{n}, skip_ext_time {skip})", case.describe()));
+            return f;
+        }
+    }
+
+    // --- what was kept (C19 / C03)
+    if let Some(rep) = &out.report {
+        let kept_rounds = match threshold {
+            Some(h) => rounds.len() - h,
+            None => 1, // tuning was cut short by max_time: the newest round is all there is
+        };
+        let want = kept_rounds as u64 * threads;
+        if rep.durations.len() as u64 != want {
+            finding(&mut f, if tuned { "C19" } else { "C03" }, "kept-samples", format!("{}: {} samples are reported; {} rounds ran, the threshold round is {:?}, so {want} samples of the final size must remain", case.describe(), rep.durations.len(), rounds.len(), threshold));
+        }
+        if rep.sample_size as u64 != rounds[last].size() as u64 {
+            finding(&mut f, prop, "reported-size", format!("{}: reported sample size {} but the final rounds ran {} iterations", case.describe(), rep.sample_size, rounds[last].size()));
+        }
+        for kind in 0..4 {
+            if rep.uses_input_counts[kind] && rep.counts[kind].len() != rep.durations.len() {
+                finding(&mut f, "C19", "stale-counts", format!("{}: {} per-sample counter values are kept for {} reported samples (data of discarded tuning rounds must go)", case.describe(), rep.counts[kind].len(), rep.durations.len()));
+            }
+        }
+        // allocation data of discarded rounds must be gone: every kept sample
+        // stores the tally of its own timed section and nothing else (T = 1)
+        if threads == 1 && rep.durations.len() as u64 == want {
+            let secs: Vec<&Section> = _traces.iter().flat_map(|t| t.sections.iter()).collect();
+            let kept = &secs[secs.len() - rep.durations.len()..];
+            for (i, sec) in kept.iter().enumerate() {
+                let own = reference_tally(sec.timed_ops());
+                let own = if own.tallies.iter().all(|x| *x == (0, 0)) { None } else { Some(own) };
+                if rep.tallies[i] != own {
+                    finding(&mut f, "C19", "stale-tallies", format!("{}: kept sample {i} stores tally {:?}, its own timed section performed {:?} (allocation data of discarded tuning rounds must go)", case.describe(), rep.tallies[i], own));
+                    break;
+                }
+            }
+        }
+        if let Ok(st) = &rep.stats {
+            if st.sample_count as usize != rep.durations.len() || st.iter_count != rep.durations.len() as u64 * rep.sample_size as u64 {
+                finding(&mut f, prop, "stats-counts", format!("{}: statistics say {} samples / {} iterations; {} samples of size {} are kept", case.describe(), st.sample_count, st.iter_count, rep.durations.len(), rep.sample_size));
+            }
+        }
+    }
     f
 }
